@@ -91,6 +91,15 @@ func (s *stubApp) serve(rw http.ResponseWriter, r *http.Request) {
 	s.hits[h.ReqID] = h
 	s.mu.Unlock()
 	rw.Header().Set("X-Stub-Node", s.node.Name)
+	// like a real application it sets cookies of its own on some answers
+	// (session, flash message): the proxy's position cookie must survive them
+	switch len(h.ReqID) % 3 {
+	case 1:
+		rw.Header().Add("Set-Cookie", "session=abc; Path=/; HttpOnly")
+	case 2:
+		rw.Header().Add("Set-Cookie", "session=abc; Path=/; HttpOnly")
+		rw.Header().Add("Set-Cookie", "flash=saved; Path=/")
+	}
 	rw.WriteHeader(200)
 	_, _ = io.WriteString(rw, "ok")
 }
